@@ -153,6 +153,15 @@ func c18Execute(c *h.Ctx, id string, cs c18Case, schedSeed int64, profile string
 		c.Inconclusive(s.bad)
 		return nil
 	}
+	if profile == "lossy" {
+		// some advertisement fetches fail first (NACK: no route at the forwarder yet; timeout: lost);
+		// the exchanges stay fair because the routers retry by themselves
+		s.lossRng = rand.New(rand.NewSource(schedSeed ^ 0x5eed))
+		defer func() {
+			c.Count("advertisement_fetches_nacked", int64(s.nNackAdv))
+			c.Count("advertisement_fetches_timed_out", int64(s.nLostAdv))
+		}()
+	}
 	for _, e := range cs.edges {
 		s.setLink(e[0], e[1], true)
 	}
@@ -245,6 +254,12 @@ func c18Execute(c *h.Ctx, id string, cs c18Case, schedSeed int64, profile string
 				starve = es[int(schedSeed)%len(es)]
 			} else {
 				starve = [2]int{-1, -1}
+			}
+			if s.lossRng != nil {
+				if rounds == 1 {
+					s.nackAdv, s.loseAdv = 1, 3
+				}
+				s.lossArmed = rounds >= 2
 			}
 			if !s.round(r, starve) {
 				c.Inconclusive(s.bad)
@@ -527,6 +542,27 @@ func c18Run(c *h.Ctx) {
 			}
 		}
 	}
+	// ---- lossy fetches: a few cases per batch (every NACK costs the router's own 2 s back-off)
+	nLossy := 0
+	for ci, base := range cases {
+		if ci%c.NBatch != c.Batch || base.n < 3 || nLossy >= c.Pick(2, 10) {
+			continue
+		}
+		if (ci/c.NBatch+int(c.Seed))%3 != 0 {
+			continue
+		}
+		nLossy++
+		id := fmt.Sprintf("g%d/lossy", ci)
+		if !c.Case(id) {
+			continue
+		}
+		cs := base
+		if ci < firstCoal {
+			fr := rand.New(rand.NewSource(c.Seed*1000003 + int64(ci)*101 + 977))
+			cs.faults = c18Faults(fr, cs.n, cs.edges, 1+fr.Intn(2))
+		}
+		c18Execute(c, id, cs, c.Seed*7919+int64(ci)*131+5, "lossy")
+	}
 }
 
 func init() {
@@ -534,6 +570,7 @@ func init() {
 		ID: "C18", Level: "exploration",
 		Rule: "N real dv.Router objects (N=2..5 every connected graph up to isomorphism: 1+2+6+21; plus random connected graphs on 6 in thorough) with no loops started; the harness delivers 'a hears b's sync Interest and fetches b's current advertisement' events (b's real Interest handler encodes, a's real Data handler decodes and updates) in PRNG-fair rounds (every directed neighbour pair once per round, one profile starving an edge for 3 rounds), " +
 			"waits for the routers' own follow-up goroutines, and injects 0-3 link removals / router removals / link additions (neighbour expiry through the real dead-neighbour check); oracle: a full round without any advertisement change is reached within 2(N+16) rounds after each fault; there every cost equals the BFS hop distance (<16), every next hop is a neighbour on a shortest path, unreachable destinations are absent, Rib.Entries() counts the reachable routers, " +
+			"no advertisement ever lists cost >= 16, and different schedule seeds end with identical next hops; a lossy profile answers some advertisement fetches (from the second round of a phase on) with a NACK or a timeout first and relies on the routers' own retries; " +
 			"no advertisement ever lists cost >= 16, and different schedule seeds end with identical next hops; distinct = (N, #edges, phase kind, #components, schedule profile)",
 		Assumptions: []string{"every fair delivery order is sampled (2-6 schedule seeds per case), not enumerated", "neighbour expiry is triggered by overriding lastSeen through a hook and calling the real checkDeadNeighbors", "hooks: dv/dv, dv/table, dv/nfdc verif_hooks.go"},
 		Batches:     func(t bool) int { return 16 },
@@ -545,6 +582,6 @@ func init() {
 		},
 		Run:         c18Run,
 		MinDistinct: 15,
-		Floors:      map[string]int64{"fixed_points": 50, "exchanges": 2000},
+		Floors:      map[string]int64{"fixed_points": 50, "exchanges": 2000, "advertisement_fetches_nacked": 3},
 	})
 }
